@@ -196,7 +196,11 @@ class BaseLoader(ABC):
         # resource is not accessible.
         url = str(url)
         if url.startswith("package:"):
-            _, package, filename = url.split(":", 2)
+            parts = url.split(":", 2)
+            if len(parts) != 3 or not parts[1] or not parts[2]:
+                raise ZConfig.ConfigurationError(
+                    "malformed package: URL (package:<name>:<file>)", url)
+            _, package, filename = parts
             file = openPackageResource(package, filename)
         else:
             try:
@@ -205,7 +209,8 @@ class BaseLoader(ABC):
                 # urllib.request.URLError has a particularly hostile str(), so
                 # we generally don't want to pass it along to the user.
                 self._raise_open_error(url, e.reason)  # pragma: no cover
-            except OSError as e:
+            except (OSError, ValueError) as e:
+                # ValueError: urllib's verdict on a malformed URL
                 self._raise_open_error(url, str(e))
 
             try:
@@ -272,8 +277,17 @@ class BaseLoader(ABC):
 
 
 def openPackageResource(package, path):
-    __import__(package)
+    try:
+        __import__(package)
+    except (ImportError, ValueError) as e:
+        raise ZConfig.SchemaResourceError(
+            f"could not load package {package}: {str(e)}",
+            filename=path, package=package)
     pkg = sys.modules[package]
+    if not hasattr(pkg, "__path__"):
+        raise ZConfig.SchemaResourceError(
+            "import name does not refer to a package",
+            filename=path, package=package)
     try:
         loader = pkg.__loader__
     except AttributeError:
